@@ -136,6 +136,9 @@ pub const KEY_PATS: &[KeyPat] = &[
     KeyPat { re: r"=\s*(?P<value>-?[0-9]+)", extract: ex_eq_int, has_value_group: true },
     KeyPat { re: "^k(?P<value>[a-z]*)", extract: ex_k_group_star, has_value_group: true },
     KeyPat { re: "^[a-z]*", extract: ex_lower_prefix, has_value_group: false },
+    // the same `value` group in the regex crate's other spelling of a named group
+    KeyPat { re: "id:(?<value>[0-9]+)", extract: ex_id_group, has_value_group: true },
+    KeyPat { re: "^k(?<value>[a-z]*)", extract: ex_k_group_star, has_value_group: true },
 ];
 
 pub fn key_pat(re: &str) -> Option<&'static KeyPat> {
